@@ -411,3 +411,55 @@ Theorem C05_close_frame_classified : forall (me : bytes) (sid : subid) (raw : by
   classify_frame (ser_sub_notif me sid true raw) = FSingle (ISubErr me sid raw).
 Proof. exact classify_frame_sub_close. Qed.
 Print Assumptions C05_close_frame_classified.
+
+(* the same for an ELEMENT of an array (the reader chain of the loop is read from the source separately from the one
+   of a whole message: Proofs/ClientWireElem.v) *)
+From JV Require Import Proofs.ClientWireElem.
+Theorem C05_push_element_classified : forall (me : bytes) (sid : subid) (raw : bytes),
+  utf8_valid me = true -> wf_subid sid -> raw_payload raw ->
+  classify_elem (ser_sub_notif me sid false raw) = ISubNotif me sid raw.
+Proof. exact classify_elem_sub_notif. Qed.
+Print Assumptions C05_push_element_classified.
+
+Theorem C05_close_element_classified : forall (me : bytes) (sid : subid) (raw : bytes),
+  utf8_valid me = true -> wf_subid sid -> raw_payload raw ->
+  classify_elem (ser_sub_notif me sid true raw) = ISubErr me sid raw.
+Proof. exact classify_elem_sub_close. Qed.
+Print Assumptions C05_close_element_classified.
+
+(* ---- the dispatch of handle_recv_message is READ FROM THE SOURCE (tools/translators/client_dispatch.py ->
+   Gen/ClientDispatchGen.client_dispatch; Model/ClientDispatch.v is its alphabet) and interpreted by Model/ClientMgr.v:
+     classify_frame_with d / handle_back_with d    the classifier / the frame handler under the dispatch d
+                                                   (classify_frame, handle_back = these at client_dispatch)
+     read_with d s raw                             handle_back_with d s (classify_frame_with d raw)
+     reorder_readers rs d                          d with the readers of both tables tried in the order rs, arms unchanged
+     array_run s ms acc rng got                    the loop of the array arm under client_dispatch: inl (state, batch, range,
+                                                   got_notif) after the last element, or inr (the value the function
+                                                   returned from inside the loop) ---- *)
+From JV Require Import Model.ClientDispatch Gen.ClientDispatchGen.
+
+(* the dependency on the ORDER of the readers is real: with Notification tried before SubscriptionResponse (everything
+   else as in the source) a notification of an active subscription with room in its stream is NOT delivered to it *)
+Theorem C05_dispatch_order_matters :
+  let d_swapped := reorder_readers [TryResponse; TryNotification; TrySubResponse; TrySubError] client_dispatch in
+  exists (s : st) (raw : bytes) (sid : subid) (ch : handle) (c : chan) (item : bytes),
+    sub_chan s sid = Some ch /\ chan_of s ch = Some c /\ accepts c /\
+    classify_frame raw = FSingle (ISubNotif b#"sub" sid item) /\
+    (exists s1, read_with client_dispatch s raw = ROk s1 [] /\ chan_of s1 ch = Some (push_buf c item)) /\
+    (exists s1, read_with client_dispatch s (x5b :: raw ++ [x5d]) = ROk s1 [] /\ chan_of s1 ch = Some (push_buf c item)) /\
+    (exists s2, read_with d_swapped s raw = ROk s2 [] /\ chan_of s2 ch = Some c) /\
+    (exists s2, read_with d_swapped s (x5b :: raw ++ [x5d]) = ROk s2 [] /\ chan_of s2 ch = Some c).
+Proof. exact dispatch_order_matters. Qed.
+Print Assumptions C05_dispatch_order_matters.
+
+(* a close requested while element i of an array is handled (the item was refused: C05_refused_item_requests_unsubscribe)
+   is PUSHED, not returned: the elements after it are handled all the same, from the state `sub_deliver` left, with the
+   batch and the range collected so far *)
+Theorem C05_array_close_is_pushed : forall s pre me sid p post acc rng got,
+  array_run s (pre ++ ISubNotif me sid p :: post) acc rng got =
+  match array_run s pre acc rng got with
+  | inl (s1, acc1, rng1, got1) => array_run (sub_deliver s1 sid p) post acc1 rng1 true
+  | inr r => inr r
+  end.
+Proof. exact array_close_is_pushed. Qed.
+Print Assumptions C05_array_close_is_pushed.
